@@ -6,6 +6,12 @@
   ifelse     reformat + `if c: return a` followed by `return b` turned into if/else
   condtemp   reformat + `if COND:` turned into `_cond_value = COND; if _cond_value:`
   negif      reformat + `if c: A else: B` turned into `if not c: B else: A`
+  mulswap    reformat + `a * b` -> `b * a` for call-free operands
+  cmpflip    reformat + `a < b` -> `b > a`, `a == b` -> `b == a`
+  kwswap     reformat + keyword arguments of calls in reversed order
+  ifexp      reformat + conditional expressions <-> if/else statements
+  recvtemp   reformat + `a.b.c(args)` -> `_recv = a.b; _recv.c(args)`
+  npalias    reformat + `import numpy as np` -> `import numpy as npx`, uses renamed
 
 usage: python3 tools/equivalents.py [variant ...] [--checks C01,C02,...] [--keep]
 Scratch copies live under ~/.cache/eko-verif-scratch and are removed.  Not a registered check; it RUNS the checks of /verif only.
@@ -135,8 +141,104 @@ def mul_swap(tree):
     return ast.fix_missing_locations(T().visit(tree))
 
 
+def cmp_flip(tree):
+    """`a < b` -> `b > a`, `a == b` -> `b == a` (single comparisons of call-free operands; `is` / `in` untouched)"""
+    flip = {ast.Lt: ast.Gt, ast.Gt: ast.Lt, ast.LtE: ast.GtE, ast.GtE: ast.LtE, ast.Eq: ast.Eq, ast.NotEq: ast.NotEq}
+
+    class T(ast.NodeTransformer):
+        def visit_Compare(self, n):
+            self.generic_visit(n)
+            if len(n.ops) == 1 and type(n.ops[0]) in flip and not any(isinstance(c, ast.Call) for x in (n.left, n.comparators[0]) for c in ast.walk(x)):
+                n.left, n.comparators[0] = n.comparators[0], n.left
+                n.ops = [flip[type(n.ops[0])]()]
+            return n
+
+    return ast.fix_missing_locations(T().visit(tree))
+
+
+def kw_swap(tree):
+    """keyword arguments of every call in reversed order (values without calls only, so evaluation order does not matter)"""
+    class T(ast.NodeTransformer):
+        def visit_Call(self, n):
+            self.generic_visit(n)
+            if len(n.keywords) > 1 and all(k.arg is not None for k in n.keywords) \
+                    and not any(isinstance(c, ast.Call) for k in n.keywords for c in ast.walk(k.value)):
+                n.keywords = list(reversed(n.keywords))
+            return n
+
+    return ast.fix_missing_locations(T().visit(tree))
+
+
+def if_exp(tree):
+    """`x = a if c else b` -> if/else with two assignments; `return a if c else b` -> if/else with two returns;
+    and the reverse for `if c: x = a else: x = b` with a plain name target"""
+    class T(ast.NodeTransformer):
+        def visit_Assign(self, st):
+            if isinstance(st.value, ast.IfExp) and len(st.targets) == 1 and isinstance(st.targets[0], ast.Name):
+                v = st.value
+                return ast.If(test=v.test, body=[ast.Assign(targets=[ast.Name(st.targets[0].id, ast.Store())], value=v.body, lineno=st.lineno)],
+                              orelse=[ast.Assign(targets=[ast.Name(st.targets[0].id, ast.Store())], value=v.orelse, lineno=st.lineno)])
+            return st
+
+        def visit_Return(self, st):
+            if isinstance(st.value, ast.IfExp):
+                v = st.value
+                return ast.If(test=v.test, body=[ast.Return(v.body)], orelse=[ast.Return(v.orelse)])
+            return st
+
+        def visit_If(self, st):
+            self.generic_visit(st)
+            if len(st.body) == 1 and len(st.orelse) == 1 and all(isinstance(x, ast.Assign) and len(x.targets) == 1 and isinstance(x.targets[0], ast.Name)
+                                                                   for x in (st.body[0], st.orelse[0])) \
+                    and st.body[0].targets[0].id == st.orelse[0].targets[0].id and not isinstance(st.body[0].value, ast.IfExp) \
+                    and not isinstance(st.orelse[0].value, ast.IfExp):
+                return ast.Assign(targets=[ast.Name(st.body[0].targets[0].id, ast.Store())],
+                                  value=ast.IfExp(test=st.test, body=st.body[0].value, orelse=st.orelse[0].value), lineno=st.lineno)
+            return st
+
+    return ast.fix_missing_locations(T().visit(tree))
+
+
+def np_alias(tree):
+    """`import numpy as np` -> `import numpy as npx` with every use of the alias renamed (modules where `np` is bound only by that import)"""
+    binds = [n for n in ast.walk(tree) if isinstance(n, ast.Name) and n.id == "np" and isinstance(n.ctx, (ast.Store, ast.Del))]
+    args = [a for n in ast.walk(tree) if isinstance(n, ast.arguments) for a in n.args + n.kwonlyargs + n.posonlyargs if a.arg == "np"]
+    imps = [a for n in ast.walk(tree) if isinstance(n, ast.Import) for a in n.names if a.name == "numpy" and a.asname == "np"]
+    if binds or args or not imps:
+        return tree
+    for a in imps:
+        a.asname = "npx"
+    for n in ast.walk(tree):
+        if isinstance(n, ast.Name) and n.id == "np":
+            n.id = "npx"
+    return tree
+
+
+def recv_temp(tree):
+    """`a.b.c(args)` as a statement or the value of an assignment -> `_recv = a.b; _recv.c(args)` (functions without nested scopes)"""
+    for fn in ast.walk(tree):
+        if not isinstance(fn, (ast.FunctionDef, ast.AsyncFunctionDef)) or not simple_function(fn):
+            continue
+        for holder in ast.walk(fn):
+            for field in ("body", "orelse", "finalbody"):
+                body = getattr(holder, field, None)
+                if not isinstance(body, list) or not body or not isinstance(body[0], ast.stmt):
+                    continue
+                out = []
+                for i, st in enumerate(body):
+                    call = st.value if isinstance(st, (ast.Expr, ast.Assign)) and isinstance(getattr(st, "value", None), ast.Call) else None
+                    if call is not None and isinstance(call.func, ast.Attribute) and isinstance(call.func.value, ast.Attribute) \
+                            and not any(isinstance(c, ast.Call) for c in ast.walk(call.func.value)):
+                        nm = f"_recv{st.lineno}"
+                        out.append(ast.Assign(targets=[ast.Name(nm, ast.Store())], value=call.func.value, lineno=st.lineno))
+                        call.func.value = ast.Name(nm, ast.Load())
+                    out.append(st)
+                setattr(holder, field, out)
+    return ast.fix_missing_locations(tree)
+
+
 VARIANTS = {"reformat": lambda t: t, "rename": rename_locals, "rettemp": return_temp, "ifelse": if_else, "condtemp": cond_temp, "negif": negated_if,
-            "mulswap": mul_swap}
+            "mulswap": mul_swap, "cmpflip": cmp_flip, "kwswap": kw_swap, "ifexp": if_exp, "npalias": np_alias, "recvtemp": recv_temp}
 
 
 def build(variant):
